@@ -17,7 +17,9 @@ DELIVERY_TYPES = ("signal_hook::iterator::backend::DeliveryState", "signal_hook:
 
 def rule_a(ctx):
     poison_rules(ctx, "C12.a", lock_filter=lambda l: IDS_LOCK in l, floor=2)
-    panic_in_drop(ctx, "C12.a2", r"signal_hook::iterator::backend::DeliveryState$")
+    from .lockrules import drops_reaching
+    ds = [d for d in drops_reaching(ctx.F, "signal_hook_registry::unregister") if d.crate == "signal_hook"]
+    panic_in_drop(ctx, "C12.a2", None, drops=ds)
 
 
 def rule_b(ctx):
@@ -72,29 +74,43 @@ def _is_null(e):
 def rule_c(ctx):
     F = ctx.F
     rid = "C12.c"
-    ctx.rule(rid, "Drop of the shared delivery state unregisters every recorded id (iterator over the whole table, no skip/take); "
-                  "the table entry written by add_signal is the id returned by this instance's own registration", floor=3)
-    ds = drop_impls(F, r"signal_hook::iterator::backend::DeliveryState$")
-    if len(ds) != 1:
-        raise AnchorLost("Drop for DeliveryState")
-    d = ds[0]
-    ctx.fn(d)
-    un = call_sites(F, d, lambda c: c.defp == "signal_hook_registry::unregister")
-    in_loop = [bb for bb, _, _ in un if cfg.in_cycle(d, bb)]
-    ctx.check(bool(in_loop), rid, "drop:unregister-loop", "Drop for DeliveryState calls unregister inside a loop over the table", d.span,
-              "no unregister call inside a loop")
-    # iterator source: whole-slice iteration; refuse truncating adapters
-    bad_adapters = [F.inst[t["f"]].defp for _, t in d.calls() if t.get("f") is not None and
-                    re.search(r"::(take|skip|step_by|take_while|skip_while|rev|nth|last)$", F.inst[t["f"]].defp)]
-    whole = [F.inst[t["f"]].defp for _, t in d.calls() if t.get("f") is not None and
-             re.search(r"(slice::<impl \[T\]>::iter|IntoIterator>::into_iter|Vec::<T, A>::iter|slice::iter::Iter)", F.inst[t["f"]].defp)]
-    ctx.check(whole and not [a for a in bad_adapters if not a.endswith("::rev")], rid, "drop:whole-table",
-              "the loop iterates the whole id table (no take/skip/step_by adapter)", d.span, {"adapters": bad_adapters, "source": whole})
-    for bb, t, ci in un:
-        ex = flow(d).term_arg(bb, 0)
-        okk = all(mentions(e, lambda x: x[0] == "call" and x[3] and x[3].endswith("Iterator::next")) or
-                  mentions(e, lambda x: x[0] == "downcast") for e in ex)
-        ctx.check(okk, rid, "drop:arg-is-item", "the id passed to unregister is the loop item", t["sp"], [show(e) for e in ex])
+    ctx.rule(rid, "the clean-up that unregisters every recorded id (iterator over the whole table, no skip/take) runs when the *owner of the id "
+                  "table* is dropped — the table is shared by all handle clones, so tying the clean-up to anything that dies earlier leaks later "
+                  "additions; the table entry written by add_signal is the id returned by this instance's own registration", floor=4)
+    # the owner of the id table: the workspace ADT with a Mutex<Vec<Option<SigId>>> field
+    owners = [a["path"] for c, a in F.crate_items("adts") for v in a["variants"] for f in v["fields"]
+              if re.search(r"Mutex<alloc::vec::Vec<core::option::Option<signal_hook_registry::SigId>>", f["ty"])]
+    if len(owners) != 1:
+        raise AnchorLost("owner of the registered-ids table: %s" % owners)
+    owner = owners[0]
+    # clean-up functions: a loop that calls registry::unregister
+    cleaners = []
+    for i in F.inst:
+        if i.body is None or not i.local or i.crate != "signal_hook":
+            continue
+        un = call_sites(F, i, lambda c: c.defp == "signal_hook_registry::unregister")
+        if un and any(cfg.in_cycle(i, bb) for bb, _, _ in un):
+            cleaners.append(i)
+    ctx.check(bool(cleaners), rid, "cleanup:exists", "a clean-up loop calling unregister exists", None, "no function unregisters the recorded ids in a loop")
+    glue = [i for i in F.inst if i.kind == "drop_glue" and i.drop_ty == owner]
+    reach = set(F.reach(glue)) if glue else set()
+    tied = [c for c in cleaners if c.id in reach]
+    ctx.check(bool(glue) and bool(tied), rid, "cleanup:tied-to-table-owner", "dropping %s (the shared owner of the id table) runs the clean-up" % owner.split("::")[-1], None,
+              {"cleanup_functions": [c.name for c in cleaners], "reached_from_drop_of_owner": [c.name for c in tied],
+               "why": "handles share the table through an Arc and can add signals after the instance is gone; those registrations would never be removed"})
+    for d in (tied or cleaners):
+        ctx.fn(d)
+        un = call_sites(F, d, lambda c: c.defp == "signal_hook_registry::unregister")
+        bad_adapters = [F.inst[t["f"]].defp for _, t in d.calls() if t.get("f") is not None and
+                        re.search(r"::(take|skip|step_by|take_while|skip_while|nth|last)$", F.inst[t["f"]].defp)]
+        whole = [F.inst[t["f"]].defp for _, t in d.calls() if t.get("f") is not None and
+                 re.search(r"(slice::<impl \[T\]>::iter|IntoIterator>::into_iter|Vec::<T, A>::iter|slice::iter::Iter)", F.inst[t["f"]].defp)]
+        ctx.check(whole and not bad_adapters, rid, "cleanup:whole-table", "the loop iterates the whole id table (no take/skip/step_by adapter)", d.span, {"adapters": bad_adapters, "source": whole})
+        for bb, t, ci in un:
+            ex = flow(d).term_arg(bb, 0)
+            okk = all(mentions(e, lambda x: x[0] == "call" and x[3] and x[3].endswith("Iterator::next")) or
+                      mentions(e, lambda x: x[0] == "downcast") for e in ex)
+            ctx.check(okk, rid, "cleanup:arg-is-item", "the id passed to unregister is the loop item", t["sp"], [show(e) for e in ex])
     # add_signal: stored value is the result of the registration
     for h in F.some("signal_hook::iterator::backend::Handle::add_signal"):
         ctx.fn(h)
